@@ -74,6 +74,75 @@ def _impls(crate, adt_key):
     return out
 
 
+def _norm_functional(col, crate, norm, helpers, A, B):
+    """the normaliser written as a function `fn normalized(self) -> Self`: on every path the result is
+    (a / g, b / g) with g = gcd(a, b) of the argument's own fields, both negated exactly when the path's facts say
+    the reduced denominator is negative, neither otherwise"""
+    fk = util.fkey
+    I = util.analyser(helpers, features=("fncall", "comb", "opassign"))(norm)
+    p1 = ("param", 1, I.names.get(1))
+    a0, b0 = ("proj", A, p1), ("proj", B, p1)
+
+    def args(t):
+        return [x[1][1] if isinstance(x, tuple) and x and x[0] == "ref" and x[1][0] == "constval" else x for x in t[2] if not (isinstance(x, tuple) and x and x[0] == "mem")]
+
+    def is_g(t):
+        while isinstance(t, tuple) and t and t[0] == "call" and str(t[1]).endswith("clone"):
+            t = args(t)[0]
+        if not (isinstance(t, tuple) and t and t[0] == "call" and str(t[1]).split("::")[-1] == "gcd"):
+            return False
+        ga = []
+        for x in args(t):
+            while isinstance(x, tuple) and x and x[0] == "call" and str(x[1]).endswith("clone"):
+                x = args(x)[0]
+            ga.append(x)
+        return sorted(map(repr, ga)) == sorted(map(repr, [a0, b0]))
+
+    def reduced(t, f0):
+        return isinstance(t, tuple) and t and t[0] == "call" and str(t[1]).endswith("Div::div") and len(args(t)) == 2 and args(t)[0] == f0 and is_g(args(t)[1])
+
+    def negated(t, f0):
+        return isinstance(t, tuple) and t and t[0] == "call" and str(t[1]).endswith("Neg::neg") and reduced(args(t)[0], f0)
+
+    seen = set()
+    for st in I.final_states:
+        r = util.ret_term(st)
+        if not (r[0] == "agg" and isinstance(r[1], tuple) and r[1][0] == "adt" and len(r[2]) == 2):
+            col.violation("N4", "%s|divide-both" % fk(norm), norm.loc(), "the normaliser does not return a Rational built from its argument's fields (%s)" % tstr(r)[:100])
+            continue
+        ra, rb = r[2][A], r[2][B]
+        # sign of the reduced denominator on this path
+        neg = None
+        for f in st.facts:
+            t = f[1]
+            if isinstance(t, tuple) and t and t[0] == "discr" and isinstance(t[1], tuple) and t[1] and t[1][0] == "call" and str(t[1][1]).endswith("Ord::cmp"):
+                ca = args(t[1])
+                if len(ca) == 2 and reduced(ca[0], b0) and isinstance(ca[1], tuple) and ca[1][0] == "assoc" and ca[1][2] == "ZERO":
+                    if f[0] == "eq" and f[2] in (-1, 255):
+                        neg = True
+                    elif (f[0] == "ne" and f[2] in (-1, 255)) or (f[0] == "eq" and f[2] in (0, 1)):
+                        neg = False
+            if isinstance(t, tuple) and t and t[0] == "call" and str(t[1]).endswith(("PartialOrd::lt", "PartialOrd::ge")) and f[0] == "eq":
+                ca = args(t)
+                if len(ca) == 2 and reduced(ca[0], b0) and isinstance(ca[1], tuple) and ca[1][0] == "assoc" and ca[1][2] == "ZERO":
+                    neg = bool(f[2]) if str(t[1]).endswith("::lt") else not bool(f[2])
+        key = "%s|%s" % (fk(norm), "negative-branch" if neg else "non-negative-branch")
+        if neg is None:
+            col.violation("N4", "%s|sign-test" % fk(norm), norm.loc(), "the normaliser does not branch on the sign of the reduced denominator")
+            continue
+        seen.add(neg)
+        if neg and negated(ra, a0) and negated(rb, b0):
+            col.ok("N4", norm.loc(), key, "b/g < 0: returns (-(a/g), -(b/g))")
+        elif not neg and reduced(ra, a0) and reduced(rb, b0):
+            col.ok("N4", norm.loc(), key, "b/g >= 0: returns (a/g, b/g)")
+        else:
+            col.violation("N4", key, norm.loc(), "the normaliser returns (%s, %s) on the path with the reduced denominator %s: expected both fields divided by g = gcd(a, b) and both negated exactly when it is negative" % (tstr(ra)[:70], tstr(rb)[:70], "negative" if neg else "non-negative"))
+    if seen == {True, False}:
+        col.ok("N4", norm.loc(), "%s|divide-both|functional" % fk(norm), "a/g, b/g with g = gcd(a, b) on both branches", nontrivial=False)
+    else:
+        col.violation("N4", "%s|divide-both" % fk(norm), norm.loc(), "expected a negative-denominator path and a non-negative one in the normaliser")
+
+
 def check(col, prog, tier, profile, fixture=None):
     crate = prog.crate(fixture or "rlib_rational")
     fk = util.fkey
@@ -107,6 +176,8 @@ def check(col, prog, tier, profile, fixture=None):
         sites = [(bb, idx) for bb, idx, s in b.statements() if s["k"] == "assign" and s["rv"]["k"] == "agg" and s["rv"]["ak"]["k"] == "adt" and s["rv"]["ak"]["def"] == adt["key"]]
         if not sites:
             continue
+        if b.key == norm.key:
+            continue   # a normaliser written as a function builds its result itself: judged by N4
         I = An(b)
         for st in I.final_states:
             ret = util.ret_term(st)
@@ -120,6 +191,12 @@ def check(col, prog, tier, profile, fixture=None):
                     col.ok("N1", loc, key, "aggregate flows through norm before it is returned")
                 else:
                     col.violation("N1", key, loc, "%s builds a Rational that is modified by something other than norm before escaping" % b.path)
+                continue
+            if ret[0] == "call" and ret[1] in (norm.path, norm.key) or (ret[0] == "call" and any(e.kind == "call" and e.res == ret and (e.fn.get("resolved") or e.fn).get("def") == norm.key for e in evs)):
+                col.ok("N1", loc, key, "the aggregate is handed to the normaliser and its result returned")
+                continue
+            if ret[0] == "load" and ret[2] == ("deref", ("param", 1, I.names.get(1))) and not [e for e in evs if e.kind == "store"]:
+                col.ok("N1", loc, key, "returns a copy of self (an existing value)")
                 continue
             if ret[0] == "agg" and isinstance(ret[1], tuple) and ret[1][0] == "adt":
                 bv, av = ret[2][B], ret[2][A]
@@ -187,8 +264,7 @@ def check(col, prog, tier, profile, fixture=None):
         from . import c11
 
         gb = util.need_body(gc, "gcd")
-        free_g = [f_ for f_ in gc.bodies if not f_.is_closure and f_.kind == "Fn" and f_.container is None and f_.vis != "pub" and not util.self_recursive(f_)]
-        c11.rule_gcd(col, gb, util.analyser(free_g, features=("comb", "fncall", "opassign")), rid="N4")
+        c11.rule_gcd(col, gb, c11.gcd_analyser(prog, gc), rid="N4")
 
     # ---------------- N2 families
     for imp in _impls(crate, adt["key"]):
@@ -285,6 +361,11 @@ def check(col, prog, tier, profile, fixture=None):
             for st in I.final_states:
                 ret = util.ret_term(st)
                 ok = ret[0] == "agg" and ret[1][3] == "Some" and ret[2][0][0] == "call" and str(ret[2][0][1]).endswith("Ord>::cmp")
+                if ok:
+                    # ... of self with rhs, in this order (`self.cmp(self)` says every pair is equal)
+                    p1_, p2_ = ("param", 1, I.names.get(1)), ("param", 2, I.names.get(2))
+                    ca = [x for x in ret[2][0][2] if not (isinstance(x, tuple) and x and x[0] == "mem")]
+                    ok = len(ca) == 2 and ca[0] in (p1_, ("ref", ("deref", p1_))) and ca[1] in (p2_, ("ref", ("deref", p2_)))
                 key = "%s|some-cmp" % fk(b)
                 if ok:
                     col.ok("N3", b.loc(), key, "partial_cmp = Some(cmp)")
@@ -292,10 +373,13 @@ def check(col, prog, tier, profile, fixture=None):
                     col.violation("N3", key, b.loc(), "partial_cmp must be Some(self.cmp(rhs))")
 
     # ---------------- N4
+    by_value = not str(norm.locals[1]["ty"]).startswith("&")
+    if by_value:
+        _norm_functional(col, crate, norm, helpers, A, B)
     I = An(norm)
     selfp = ("deref", ("param", 1, I.names.get(1)))
     fa, fb = ("field", selfp, A), ("field", selfp, B)
-    for st in I.final_states:
+    for st in ([] if by_value else I.final_states):
         evs = st.event_list()
         g = [e for e in evs if e.kind == "call" and str(e.callee).split("::")[-1] == "gcd"]
         da = [e for e in evs if e.kind == "call" and e.extra.get("name") == "div_assign"]
